@@ -78,6 +78,8 @@ def build(s):
     t.duration = o["dur"]; t.hydraulic_timestep = o["hyd"]; t.pattern_timestep = o["pat"]
     t.report_timestep = o["rep"]; t.pattern_start = o["pstart"]; t.start_clocktime = o["clock"]
     t.rule_timestep = o["rule"]
+    if o.get("interp"):
+        t.pattern_interpolation = True
     h = wn.options.hydraulic
     h.demand_model = o["dm"]; h.demand_multiplier = o["mult"]
     for k, a in (("pmin", "minimum_pressure"), ("preq", "required_pressure"), ("pexp", "pressure_exponent"),
@@ -203,18 +205,24 @@ def wrap(res, wn, warns=()):
 
 
 # ------------------------------------------------------------------------------------------------ reference helpers
-def pattern_value(mults, t, pstart, pstep):
-    """EPANET pattern semantics: period = floor((t + pattern_start)/pattern_step) mod len."""
+def pattern_value(mults, t, pstart, pstep, interp=False):
+    """EPANET pattern semantics: period = floor((t + pattern_start)/pattern_step) mod len; with WNTR's
+    pattern_interpolation option the value moves linearly from this period's multiplier to the next one's."""
     if not mults:
         return 1.0
-    return mults[int((t + pstart) // pstep) % len(mults)]
+    k = int((t + pstart) // pstep)
+    m0 = mults[k % len(mults)]
+    if not interp or len(mults) == 1:
+        return m0
+    m1 = mults[(k + 1) % len(mults)]
+    return m0 + (m1 - m0) * ((t + pstart) - k * pstep) / float(pstep)
 
 
 def expected_demand(s, jn, t):
     o = s["opts"]
     tot = 0.0
     for b, p, c in node(s, jn)["demands"]:
-        m = 1.0 if p is None else pattern_value(s["patterns"][p], t, o["pstart"], o["pat"])
+        m = 1.0 if p is None else pattern_value(s["patterns"][p], t, o["pstart"], o["pat"], o.get("interp", False))
         tot += b * m
     return tot * o["mult"]
 
